@@ -13,6 +13,13 @@ CHECKS = {
             'extend this beyond the bound. Exhaustive inside the bound, sampled beyond.',
             'Trusts the Warshall-closure reference implementation in ztv/props/c20.py and CPython set/dict semantics.',
             'DESIGN.md 3 (C20)'),
+    'C05': ('Hypothesis-generated worlds run in-process; bracket/balance invariant over the hook trace',
+            'Generated layer DAGs with per-test hooks on any subset and histories of tests of every outcome kind '
+            '(incl. --repeat/--shuffle) are run through the real Runner; an invariant over the pid-tagged trace '
+            'checks once-per-layer, bases-first, mirrored tear-down and per-layer balance at every event.',
+            'Trusts the world runtime (ztv/runtime.py) to log the layer a hook is called on; only Python 3.12.1 '
+            'behaviour of unittest is exercised.',
+            'DESIGN.md 3 (C05)'),
 }
 
 NOT_YET = {}
